@@ -53,6 +53,7 @@ func suiteTiming(args []string) {
 	fs := flag.NewFlagSet("timing", flag.ExitOnError)
 	seed := fs.Int64("seed", 1, "")
 	long := fs.Bool("long", false, "")
+	scale := fs.Int("scale", 1, "multiplier of every timeout (confirmation runs on a loaded machine)")
 	fs.String("dir", "", "")
 	fs.Parse(args)
 	rep := &Report{Suite: "timing", Seed: *seed, Distribution: map[string]int{}}
@@ -61,7 +62,7 @@ func suiteTiming(args []string) {
 		m["kind"] = kind
 		rep.Violations = append(rep.Violations, m)
 	}
-	T := 200 * time.Millisecond
+	T := time.Duration(*scale) * 200 * time.Millisecond
 	req := dvRequest()
 	nTimely := 8
 	if *long {
